@@ -6,10 +6,9 @@ property talks about.
 
 Everything works on `List UInt8`.  Scanners produce a list of *segments* that partition the input;
 the text the Go code returns is a rendering of the segments (placeholder numbering for the masker,
-`' '`/nothing for comments).  Quirks of the Go code are kept (tree at 64dff5c): the masker looks at the PREVIOUS BYTE to decide
-whether `$` / `e'` can open a literal, and ends a `--` comment only at `\n`; the comment stripper does
-not nest, ends `--` only at `\n`, and a block comment that is followed by exactly one more byte
-swallows that byte; unmasking is ONE pass over the text (strings.NewReplacer).
+`' '`/nothing for comments).  Quirks of the Go code are kept (tree at 73763cd): the masker looks at the PREVIOUS BYTE to decide
+whether `$` / `e'` can open a literal; the comment stripper does not nest and ends `--` only at `\n`;
+unmasking is ONE pass over the text (strings.NewReplacer).
 Core-only, executable.
 -/
 namespace Arc.C15
@@ -162,7 +161,7 @@ def lBlock : Nat → Bytes → Bytes × Bytes
 
 /-- One iteration of the main loop of `MaskStringLiterals` at byte `c` (previous byte `prev`, 0 at
 the start), remaining input `t`: the segment produced and the rest. Order of the tests as in the
-source: dollar quote, E-string, `--` comment (to `\n` only), nested block comment, quote. -/
+source: dollar quote, E-string, `--` comment (to `\n` or `\r`, 17363b5), nested block comment, quote. -/
 def mTok (prev c : UInt8) (t : Bytes) : Seg × Bytes :=
   if c = DOLLAR then
     if isIdentByte prev then (.raw c, t)
@@ -173,7 +172,7 @@ def mTok (prev c : UInt8) (t : Bytes) : Seg × Bytes :=
     let r := lEBody t.tail
     (.str (c :: QUOTE :: r.1), r.2)
   else if c = DASH ∧ t.head? = some DASH then
-    let r := spanP (fun b => b != NL) (c :: t)
+    let r := spanP (fun b => b != NL && b != CR) (c :: t)
     (.lcom r.1, r.2)
   else if c = SLASH ∧ t.head? = some STAR then
     let r := lBlock 1 t.tail
@@ -262,14 +261,13 @@ def unmask (t : Bytes) (masks : List Mask) : Bytes := unmaskF masks (t.length + 
 
 /-! ## comment stripping (`stripSQLComments`) -/
 
-/-- After `/*`: scan to the first `*/` (no nesting). Quirk kept: when at most one byte remains after
-the `*/` (`i+1 >= len(sql)`), that byte is swallowed as well. Returns (consumed, rest). -/
+/-- After `/*`: scan to the first `*/` (no nesting); an unterminated comment runs to the end
+(`closed` flag, 168cceb). Returns (consumed, rest). -/
 def sBlock : Bytes → Bytes × Bytes
   | [] => ([], [])
   | [c] => ([c], [])
   | c :: c2 :: t2 =>
-    if c = STAR ∧ c2 = SLASH then
-      (if t2.length ≤ 1 then (c :: c2 :: t2, []) else ([c, c2], t2))
+    if c = STAR ∧ c2 = SLASH then ([c, c2], t2)
     else
       let r := sBlock (c2 :: t2)
       (c :: r.1, r.2)
@@ -382,11 +380,9 @@ def kDollarInIdent : Nat := 6  -- `$` that continues an identifier but follows `
 def kEInIdent : Nat := 7       -- e'… / E'… whose `e` continues an identifier after a non-ASCII byte or `$`
 def kDollarAfterDigit : Nat := 8  -- dollar-quote opener glued to a number
 def kEAfterDigit : Nat := 10   -- E'…' glued to a number
-def kCrEndsLineM : Nat := 11   -- (mask) `--` comment ended by a carriage return (the masker reads on to `\n`)
 def kLiteralLeft : Nat := 20   -- (strip) a literal is present in the text handed to the stripper
 def kCrEndsLine : Nat := 21    -- (strip) `--` comment ended by a carriage return
 def kNested : Nat := 22        -- (strip) nested block comment
-def kByteAfterBlock : Nat := 23 -- (strip) exactly one byte follows a block comment
 def kLookalike : Nat := 30     -- (round trip) `STR_` / `IDENT_` in the text OUTSIDE literals and quoted identifiers
 
 /-- Mask-agreement check of the token that `lTok inId c t` produces; `prev` = previous byte. -/
@@ -402,8 +398,6 @@ def kTokM (inId : Bool) (prev c : UInt8) (t : Bytes) : Nat :=
     match tagScan lTagStart lTagCont true t with
     | some _ => if isIdentByte prev then kDollarAfterDigit else 0
     | none => 0
-  else if c = DASH ∧ t.head? = some DASH then
-    (if (spanP (fun b => b != NL && b != CR) (c :: t)).2.head? = some CR then kCrEndsLineM else 0)
   else 0
 
 def kSegsMF : Nat → Bool → UInt8 → Bytes → Nat
@@ -426,8 +420,7 @@ def kTokS (inId : Bool) (c : UInt8) (t : Bytes) : Nat :=
   | .ident _ => kLiteralLeft
   | .lcom _ => if r.2.1.head? = some CR then kCrEndsLine else 0
   | .bcom o =>
-    if hasPair SLASH STAR (o.drop 2) then kNested
-    else if r.2.1.length = 1 then kByteAfterBlock else 0
+    if hasPair SLASH STAR (o.drop 2) then kNested else 0
   | .raw _ => 0
 
 def kSegsSF : Nat → Bool → Bytes → Nat
